@@ -20,7 +20,7 @@ from mc.ref import geom
 ID = "C13"
 RULE = ("depth-first explicit-state search over ALL histories of depth <= 3 (quick) / <= 4 (thorough) of 18 operations "
         "add_frame_result(frame k in {0,1,2} x estimates {perfect, shifted, one missing + one extra} x critical filter {wide, "
-        "narrow}) on a real manager over a generated 3-frame dataset, in two worlds (detection/base_link, tracking/map with a "
+        "narrow}), and of depth <= 2 (quick) / <= 3 (thorough) of 30 operations (adds estimate lists {cars only, empty}) on a real manager over a generated 3-frame dataset, in two worlds (detection/base_link, tracking/map with a "
         "moving ego); get_scene_result() is queried (twice) in every state. state = tuple of frame-result summaries (pairing, "
         "TP/FP/FN/TN uuids, critical GT, AP/APH, CLEAR scores); oracles: last result equals the same operation on a pristine "
         "manager (for tracking: after the same preceding operation), dataset and caller lists untouched, scene score = reference "
@@ -31,11 +31,14 @@ ASSUMPTIONS = [
     "pooled AP is compared with the exact-rational reference only when the pooled confidences of a label bucket are pairwise "
     "distinct (each operation salts its confidences; histories repeating an operation are exempt from the value clause)",
 ]
-SALT_KIND = {"perfect": 0, "shifted": 1, "missing": 2}
+SALT_KIND = {"perfect": 0, "shifted": 1, "missing": 2, "cars_only": 3, "none": 4}
 KINDS = ["perfect", "shifted", "missing"]
+KINDS_X = ["cars_only", "none"]   # a label with ground truth but no estimate at all / no estimate at all
 CRITS = {"wide": dict(max_x_position_list=[50.0, 50.0], max_y_position_list=[50.0, 50.0]),
          "narrow": dict(max_x_position_list=[10.0, 10.0], max_y_position_list=[10.0, 10.0])}
 OPS = [(k, kind, c) for k in range(3) for kind in KINDS for c in ("wide", "narrow")]
+N18 = len(OPS)
+OPS += [(k, kind, c) for k in range(3) for kind in KINDS_X for c in ("wide", "narrow")]   # indices >= N18: extended alphabet
 WORLDS = {"det": ("detection", "base_link"), "trk": ("tracking", "map")}
 CFG = {"target_labels": ["car", "pedestrian"], "max_x_position": 100.0, "max_y_position": 100.0, "min_point_numbers": [0, 0],
        "label_prefix": "autoware", "center_distance_thresholds": [[1.0, 1.0], [0.3, 2.0]], "plane_distance_thresholds": [1.0],
@@ -49,18 +52,29 @@ class Abandon(Exception):
 
 def units(tier, seed):
     depth = 3 if tier == "quick" else 4
+    depth_x = 2 if tier == "quick" else 3
     u = []
+    # phase 1 (dispatched first): rows of the tracking reference table "result of op b right after op a on a pristine manager",
+    # computed in parallel and shared with the exploring workers through the run's scratch directory
+    for a in range(len(OPS)):
+        u.append(dict(world="trk", kind="prep", row=a))
     for w in WORLDS:
-        u.append(dict(world=w, prefix=[], depth=1))
+        u.append(dict(world=w, prefix=[], depth=1, nops=len(OPS)))
         for a in range(len(OPS)):
             for b in range(len(OPS)):
-                u.append(dict(world=w, prefix=[a, b], depth=depth))
+                if a < N18 and b < N18:
+                    u.append(dict(world=w, prefix=[a, b], depth=depth, nops=N18))        # 18-operation alphabet, full depth
+                    if depth_x > 2:
+                        u.append(dict(world=w, prefix=[a, b], depth=depth_x, nops=len(OPS), only_extended=True))
+                else:
+                    u.append(dict(world=w, prefix=[a, b], depth=depth_x, nops=len(OPS)))  # histories touching the extended alphabet
     return u
 
 
 def bounds(tier, seed):
     d = 3 if tier == "quick" else 4
-    return {"operations": len(OPS), "depth": d, "histories": sum(len(OPS) ** i for i in range(1, d + 1)) * len(WORLDS), "worlds": list(WORLDS)}
+    return {"operations": "18 (3 frames x {perfect, shifted, missing+extra} x {wide, narrow}) to depth %d; 30 (adds {cars only, no estimates}) to depth %d" % (d, 2 if tier == "quick" else 3),
+            "worlds": list(WORLDS)}
 
 
 # ---------------------------------------------------------------------------------------------------
@@ -126,6 +140,8 @@ class World:
         out = []
         for j, o in enumerate(self.pristine[k]):
             if kind == "missing" and j == 1:
+                continue
+            if kind == "none" or (kind == "cars_only" and j == 2):
                 continue
             e = copy.deepcopy(o)
             e.uuid = "e" + o.uuid
@@ -292,37 +308,85 @@ def _step(W, hist, acc, record_case):
         raise Abandon()
 
 
-def _prepare(W):
-    if W.fresh1:
-        return
-    for i, op in enumerate(OPS):
+def _row_path(W, a):
+    return os.path.join(scratch.root(), "c13_%s_row%d.pkl" % (W.name, a))
+
+
+def _compute_row(W, a):
+    row = {}
+    for b in range(len(OPS)):
         W.reset()
-        W.fresh1[i], _ = W.do(op)
-    if W.tracking:
-        for a in range(len(OPS)):
-            for b in range(len(OPS)):
-                W.reset()
-                W.do(OPS[a])
-                for f, objs in zip(W.m.ground_truth_frames, W.pristine):  # reference semantics: the dataset does not change
-                    f.objects = list(objs)
-                W.fresh2[(a, b)], _ = W.do(OPS[b])
+        W.do(OPS[a])
+        for f, objs in zip(W.m.ground_truth_frames, W.pristine):  # reference semantics: the dataset does not change
+            f.objects = list(objs)
+        row[b], _ = W.do(OPS[b])
     W.reset()
+    return row
 
 
-def _dfs(W, hist, depth, acc):
+class _Fresh2(dict):
+    """lazy view of the reference table; rows come from the phase-1 units (scratch files) or are computed on demand (replay)."""
+
+    def __init__(self, W):
+        super().__init__()
+        self.W, self.rows, self.wait = W, {}, True
+
+    def __getitem__(self, key):
+        a, b = key
+        if a not in self.rows:
+            import pickle
+            import time as _t
+            path = _row_path(self.W, a)
+            t0 = _t.time()
+            while self.wait and not os.path.exists(path) and _t.time() - t0 < 600:
+                _t.sleep(0.05)
+            if os.path.exists(path):
+                with open(path, "rb") as f:
+                    self.rows[a] = pickle.load(f)
+            else:
+                self.rows[a] = _compute_row(self.W, a)
+        return self.rows[a][b]
+
+
+def _prepare(W, wait=True):
+    if not W.fresh1:
+        for i, op in enumerate(OPS):
+            W.reset()
+            W.fresh1[i], _ = W.do(op)
+        if W.tracking:
+            W.fresh2 = _Fresh2(W)
+        W.reset()
+    if W.tracking:
+        W.fresh2.wait = wait
+
+
+def _dfs(W, hist, depth, acc, nops=None, only_extended=False):
     if len(hist) >= depth:
         return
-    for i in range(len(OPS)):
+    for i in range(nops or len(OPS)):
+        if only_extended and len(hist) == depth - 1 and i < N18 and all(h < N18 for h in hist):
+            continue  # pure 18-alphabet histories are covered by the full-depth units
         hist.append(i)
         n = len(W.m.frame_results)
         _step(W, hist, acc, True)
-        _dfs(W, hist, depth, acc)
+        _dfs(W, hist, depth, acc, nops, only_extended)
         del W.m.frame_results[n:]
         hist.pop()
 
 
 def run_unit(unit, acc):
     W = world(unit["world"])
+    if unit.get("kind") == "prep":
+        import pickle
+        row = _compute_row(W, unit["row"])
+        tmp = _row_path(W, unit["row"]) + ".tmp%d" % os.getpid()
+        with open(tmp, "wb") as f:
+            pickle.dump(row, f)
+        os.replace(tmp, _row_path(W, unit["row"]))
+        acc.exec(2 * len(OPS))
+        acc.note("reference-rows-prepared")
+        acc.state(("prep", unit["row"]))
+        return
     _prepare(W)
     W.reset()
     try:
@@ -341,8 +405,11 @@ def run_unit(unit, acc):
             acc.note("subtree-abandoned-after-dataset-modification")
             return
         hist = [a, b]
-        _step(W, hist, acc, True)
-        _dfs(W, hist, unit["depth"], acc)
+        if not unit.get("only_extended"):
+            _step(W, hist, acc, True)
+        else:
+            W.do(OPS[b])
+        _dfs(W, hist, unit["depth"], acc, unit.get("nops"), unit.get("only_extended", False))
     except Abandon:
         acc.note("subtree-abandoned-after-dataset-modification")
     finally:
@@ -352,7 +419,7 @@ def run_unit(unit, acc):
 def check_case(case, acc):
     """linear replay of one history on a pristine manager; every prefix is checked."""
     W = world(case["world"])
-    _prepare(W)
+    _prepare(W, wait=False)
     W.reset()
     hist = []
     for i in case["history"]:
